@@ -80,10 +80,12 @@ pub fn tracked_lines(val: u32, mode: u8) -> Vec<String> {
     let nlines = 1 + (val & 3) as usize;
     let empty_mid = (val >> 2) & 1 == 1 && nlines >= 3;
     let lead = (val >> 3) & 1 == 1;
+    // an empty *first* line is inside the statement's domain too ("\nx": non-empty, no final newline)
+    let empty_first = (val >> 4) & 3 == 3 && nlines >= 2;
     let tag = ["p", "P", "d", "D"][mode as usize & 3];
     let mut v = Vec::new();
     for i in 0..nlines {
-        if i == 1 && empty_mid {
+        if (i == 1 && empty_mid) || (i == 0 && empty_first) {
             v.push(String::new());
         } else if i == 2 && lead {
             v.push(format!("  {}{}:{}", tag, val, i));
